@@ -1,6 +1,213 @@
-import TsV.Model.Pipeline
+import TsV.Lemmas.Collect
+/-!
+# C06 — output is a deterministic function of the inputs, not of scheduling or hashing
+
+A schedule is abstracted to (i) the *arrival order* of the per-file results at the collector and
+(ii) the iteration orders of hash containers.  `C06_arrival_order` is the statement for arrival
+orders within one crate (in particular the whole of single-file mode, where every file belongs to
+the crate `""`): the reconciled, sorted item lists — everything `generate_types` reads — are the
+same for every permutation of the arrivals.  Hash iteration order enters the model only through
+the explicit parameters `imports` / `firstOther` / `pick` of `Pipeline.resolveRenamed`,
+`Pipeline.usedImports` and `Visitor.reconcileReferencedTypes`; in single-file mode
+`import_types` is empty, so they are never consulted (`resolve_no_imports`).
+-/
 namespace TsV.C06
-open TsV
-/-- placeholder while the invariance theorems are being written: the collector keeps crates in key order -/
-theorem collect_nil : Pipeline.collect [] = [] := rfl
+open TsV TsV.Pipeline TsV.Collect
+
+/-- within the crate no two types share an original name, no two consts do, and (single-file
+mode) no imports were recorded -/
+structure WF (a : List ParsedData) : Prop where
+  types : ((a.flatMap (·.structs)).map (·.id.original) ++ (a.flatMap (·.enums)).map (·.id.original) ++
+           (a.flatMap (·.aliases)).map (·.id.original)).Nodup
+  consts : ((a.flatMap (·.consts)).map (·.id.original)).Nodup
+  noImports : ∀ d ∈ a, d.importTypes = []
+
+theorem merged_imports_nil : ∀ (a : List ParsedData) (acc : ParsedData),
+    acc.importTypes = [] → (∀ d ∈ a, d.importTypes = []) → (merged acc a).importTypes = []
+  | [], acc, h, _ => h
+  | d :: t, acc, h, hd => by
+    have := merged_imports_nil t (addAssign acc d) (by simp [addAssign, hd d (by simp), h])
+      (fun x hx => hd x (by simp [hx]))
+    simpa [merged] using this
+
+/-- with no imports, a reference is resolved in the current crate only: no hash order involved -/
+theorem resolve_no_imports (c : Str) (r : Renames) (id : Str) :
+    resolveRenamed c r [] id = (if hasRename r id then renameOf r id c else none) := by
+  unfold resolveRenamed
+  by_cases h : hasRename r id = true <;> simp [h]
+
+/-- what `generate_types` reads of one crate -/
+def view (p : Str × ParsedData) :
+    Str × List RustStruct × List RustEnum × List RustTypeAlias × List RustConst × Str × Bool :=
+  (p.1, p.2.structs, p.2.enums, p.2.aliases, p.2.consts, p.2.fileName, p.2.multiFile)
+
+/-- the three rename sources of one crate -/
+def renamesOf (c : Str) (ss : List RustStruct) (es : List RustEnum) (as : List RustTypeAlias) : Renames :=
+  (ss.filterMap fun s => if s.id.serdeRename then some (s.id.original, c, s.id.renamed) else none) ++
+  (es.filterMap fun e => if e.id.serdeRename then some (e.id.original, c, e.id.renamed) else none) ++
+  (as.filterMap fun a => if a.id.serdeRename then some (a.id.original, c, a.id.renamed) else none)
+
+theorem collectSerdeRenames_single (c : Str) (d : ParsedData) :
+    collectSerdeRenames [(c, d)] = renamesOf c d.structs d.enums d.aliases := by
+  simp [collectSerdeRenames, renamesOf]
+
+theorem filterMap_keys_sublist {α} (l : List α) (p : α → Bool) (o r : α → Str) (c : Str) :
+    ((l.filterMap fun x => if p x then some (o x, c, r x) else none).map (·.1)).Sublist (l.map o) := by
+  induction l with
+  | nil => simp
+  | cons x t ih =>
+    simp only [List.filterMap_cons, List.map_cons]
+    by_cases hp : p x = true
+    · simp only [hp, if_true, List.map_cons]; exact ih.cons₂ _
+    · simp only [hp, Bool.false_eq_true, if_false]; exact ih.cons _
+
+theorem renamesOf_unique (c : Str) (ss : List RustStruct) (es : List RustEnum) (as : List RustTypeAlias)
+    (h : (ss.map (·.id.original) ++ es.map (·.id.original) ++ as.map (·.id.original)).Nodup) :
+    UniqueKeys (renamesOf c ss es as) := by
+  unfold UniqueKeys
+  have hsub : ((renamesOf c ss es as).map (·.1)).Sublist
+      (ss.map (·.id.original) ++ es.map (·.id.original) ++ as.map (·.id.original)) := by
+    unfold renamesOf
+    simp only [List.map_append]
+    exact ((filterMap_keys_sublist ss (·.id.serdeRename) (·.id.original) (·.id.renamed) c).append
+      (filterMap_keys_sublist es (·.id.serdeRename) (·.id.original) (·.id.renamed) c)).append
+      (filterMap_keys_sublist as (·.id.serdeRename) (·.id.original) (·.id.renamed) c)
+  have hnd : ((renamesOf c ss es as).map (·.1)).Nodup := hsub.nodup h
+  have hc : ∀ e ∈ renamesOf c ss es as, e.2.1 = c := by
+    intro e he
+    simp only [renamesOf, List.mem_append, List.mem_filterMap] at he
+    rcases he with (⟨s, _, hs⟩ | ⟨s, _, hs⟩) | ⟨s, _, hs⟩ <;>
+      (split at hs <;> simp at hs; rw [← hs])
+  -- keys (orig, c) are injective images of orig
+  have : (renamesOf c ss es as).map (fun e => (e.1, e.2.1)) =
+      ((renamesOf c ss es as).map (·.1)).map fun o => (o, c) := by
+    rw [List.map_map]
+    apply List.map_congr_left
+    intro e he
+    simp [hc e he]
+  rw [this]
+  exact List.Pairwise.map (fun o => (o, c)) (fun a b hab h => hab (by simpa using h)) hnd
+
+theorem renamesOf_perm (c : Str) {ss ss' : List RustStruct} {es es' : List RustEnum}
+    {as as' : List RustTypeAlias} (h1 : ss.Perm ss') (h2 : es.Perm es') (h3 : as.Perm as') :
+    (renamesOf c ss es as).Perm (renamesOf c ss' es' as') := by
+  unfold renamesOf
+  exact ((h1.filterMap _).append (h2.filterMap _)).append (h3.filterMap _)
+
+/-- `reconcileOne` does not change names -/
+theorem checkField_id (c : Str) (r : Renames) (i : List ImportedType) (f : RustField) :
+    (checkField c r i f).id = f.id := rfl
+
+theorem sorted_map_perm {α} (key : α → Str) (f g : α → α) (l₁ l₂ : List α) (hp : l₁.Perm l₂)
+    (hfg : ∀ x, f x = g x) (hk : ∀ x, key (f x) = key x) (hd : (l₁.map key).Nodup) :
+    sortBy key (l₁.map f) = sortBy key (l₂.map g) := by
+  have hg : g = f := by funext x; exact (hfg x).symm
+  subst hg
+  apply Order.sortBy_perm_invariant key _ _ (hp.map _)
+  rw [List.map_map]
+  have : (key ∘ g) = key := by funext x; exact hk x
+  rw [this]; exact hd
+
+/-- **C06, arrival order.** For arrivals of one crate (all of single-file mode) in which type
+names and const names are unique, every permutation of the arrival order yields the same reconciled,
+sorted structs, enums, aliases and consts, the same crate key, file name and mode. -/
+theorem C06_arrival_order (a b : List ParsedData) (hp : a.Perm b) (c fn : Str) (mf : Bool)
+    (hu : Uniform c fn mf a) (hwf : WF a) :
+    (reconcile (collect a)).map view = (reconcile (collect b)).map view := by
+  cases a with
+  | nil =>
+    have : b = [] := by simpa using hp.symm.eq_nil
+    subst this; rfl
+  | cons d0 t =>
+    cases b with
+    | nil => exact absurd hp.eq_nil (by simp)
+    | cons e0 u =>
+      have hub : Uniform c fn mf (e0 :: u) := fun d hd => hu d (hp.symm.subset hd)
+      rw [collect_uniform c fn mf d0 t hu, collect_uniform c fn mf e0 u hub]
+      -- abbreviations
+      generalize hA : merged {} (d0 :: t) = A
+      generalize hB : merged {} (e0 :: u) = B
+      have hAs : A.structs = (d0 :: t).flatMap (·.structs) := by rw [← hA, merged_structs]; rfl
+      have hBs : B.structs = (e0 :: u).flatMap (·.structs) := by rw [← hB, merged_structs]; rfl
+      have hAe : A.enums = (d0 :: t).flatMap (·.enums) := by rw [← hA, merged_enums]; rfl
+      have hBe : B.enums = (e0 :: u).flatMap (·.enums) := by rw [← hB, merged_enums]; rfl
+      have hAa : A.aliases = (d0 :: t).flatMap (·.aliases) := by rw [← hA, merged_aliases]; rfl
+      have hBa : B.aliases = (e0 :: u).flatMap (·.aliases) := by rw [← hB, merged_aliases]; rfl
+      have hAc : A.consts = (d0 :: t).flatMap (·.consts) := by rw [← hA, merged_consts]; rfl
+      have hBc : B.consts = (e0 :: u).flatMap (·.consts) := by rw [← hB, merged_consts]; rfl
+      have pS : A.structs.Perm B.structs := by rw [hAs, hBs]; exact hp.flatMap_right _
+      have pE : A.enums.Perm B.enums := by rw [hAe, hBe]; exact hp.flatMap_right _
+      have pA : A.aliases.Perm B.aliases := by rw [hAa, hBa]; exact hp.flatMap_right _
+      have pC : A.consts.Perm B.consts := by rw [hAc, hBc]; exact hp.flatMap_right _
+      have hAi : A.importTypes = [] := by rw [← hA]; exact merged_imports_nil _ _ rfl hwf.noImports
+      have hBi : B.importTypes = [] := by
+        rw [← hB]; exact merged_imports_nil _ _ rfl (fun d hd => hwf.noImports d (hp.symm.subset hd))
+      have hmA := merged_meta' c fn mf d0 t {} hu
+      have hmB := merged_meta' c fn mf e0 u {} hub
+      rw [hA] at hmA; rw [hB] at hmB
+      -- rename tables answer alike
+      have hnames : (A.structs.map (·.id.original) ++ A.enums.map (·.id.original) ++
+          A.aliases.map (·.id.original)).Nodup := by rw [hAs, hAe, hAa]; exact hwf.types
+      have hren : RenEquiv (collectSerdeRenames [(c, A)]) (collectSerdeRenames [(c, B)]) := by
+        rw [collectSerdeRenames_single, collectSerdeRenames_single]
+        intro x cr
+        exact ⟨renameOf_perm _ _ (renamesOf_perm c pS pE pA) (renamesOf_unique c _ _ _ hnames) x cr,
+               hasRename_perm _ _ (renamesOf_perm c pS pE pA) x⟩
+      have hS : (A.structs.map (·.id.original)).Nodup := (List.nodup_append.1 (List.nodup_append.1 hnames).1).1
+      have hE : (A.enums.map (·.id.original)).Nodup := (List.nodup_append.1 (List.nodup_append.1 hnames).1).2.1
+      have hAl : (A.aliases.map (·.id.original)).Nodup := (List.nodup_append.1 hnames).2.1
+      have hCo : (A.consts.map (·.id.original)).Nodup := by rw [hAc]; exact hwf.consts
+      simp only [reconcile, List.map_cons, List.map_nil, view, reconcileOne, hAi, hBi]
+      congr 1
+      refine Prod.ext rfl (Prod.ext ?_ (Prod.ext ?_ (Prod.ext ?_ (Prod.ext ?_ ?_))))
+      · exact sorted_map_perm _ _ _ _ _ pS
+          (fun s => by congr 1; apply List.map_congr_left; intro f _
+                       simp only [checkField]; rw [checkType_equiv _ _ hren])
+          (fun s => rfl) hS
+      · exact sorted_map_perm _ _ _ _ _ pE
+          (fun e => by
+            congr 1; apply List.map_congr_left; intro v _
+            cases v with
+            | unit i cs => rfl
+            | tuple i cs ty => simp only [checkVariant]; rw [checkType_equiv _ _ hren]
+            | anonymousStruct i cs fs =>
+              simp only [checkVariant]; congr 1; apply List.map_congr_left; intro f _
+              simp only [checkField]; rw [checkType_equiv _ _ hren])
+          (fun e => rfl) hE
+      · exact sorted_map_perm _ _ _ _ _ pA
+          (fun a => by rw [checkType_equiv _ _ hren]) (fun a => rfl) hAl
+      · exact Order.sortBy_perm_invariant _ _ _ pC hCo
+      · simp [hmA.2.1, hmA.2.2, hmB.2.1, hmB.2.2]
+
+/-- **corollary: the emission order is the same** (it is a function of the four lists) -/
+theorem generateOrder_congr (d d' : ParsedData) (h1 : d.structs = d'.structs) (h2 : d.enums = d'.enums)
+    (h3 : d.aliases = d'.aliases) (h4 : d.consts = d'.consts) : generateOrder d = generateOrder d' := by
+  simp [generateOrder, h1, h2, h3, h4]
+
+/-! The same theorem read for a fixed multiset of items: how the items are split across (visible)
+files and directories only changes the list `a` up to regrouping; two splits whose per-kind
+concatenations are permutations of each other are related by `C06_arrival_order`'s proof, which
+only uses `Perm` of the concatenated lists. -/
+
+/-! ### the converse witnesses: where uniqueness fails the arrival order shows -/
+
+def mkStruct (n : Str) (f : Str) : RustStruct :=
+  { id := ⟨n, n, false⟩, genericTypes := [], fields := [⟨⟨f, f, false⟩, .prim .u8, [], false, []⟩],
+    comments := [], decorators := {}, isRedacted := false }
+def fileWith (s : RustStruct) : ParsedData := { structs := [s] }
+
+/-- two same-named structs (e.g. `mod a { struct X }`, `mod b { struct X }`) keep arrival order -/
+example : ((reconcile (collect [fileWith (mkStruct s%"X" s%"a"), fileWith (mkStruct s%"X" s%"b")])).map
+      fun p => p.2.structs.map fun s => s.fields.map (·.id.original)) = [[[s%"a"], [s%"b"]]] ∧
+    ((reconcile (collect [fileWith (mkStruct s%"X" s%"b"), fileWith (mkStruct s%"X" s%"a")])).map
+      fun p => p.2.structs.map fun s => s.fields.map (·.id.original)) = [[[s%"b"], [s%"a"]]] := by
+  constructor <;> simp [reconcile, collect, upsert, addAssign, fileWith, mkStruct, reconcileOne, sortBy,
+    List.mergeSort, collectSerdeRenames, checkField, checkType, Str.le, Str.lt]
+
+/-- non-vacuity: two files, distinct names, both orders give [A, B] -/
+example : ((reconcile (collect [fileWith (mkStruct s%"B" s%"x"), fileWith (mkStruct s%"A" s%"y")])).map
+      fun p => p.2.structs.map (·.id.original)) = [[s%"A", s%"B"]] := by
+  simp [reconcile, collect, upsert, addAssign, fileWith, mkStruct, reconcileOne, sortBy,
+    List.mergeSort, collectSerdeRenames, checkField, checkType, Str.le, Str.lt]
+
 end TsV.C06
